@@ -1,6 +1,7 @@
 package chainsim
 
 import (
+	"bytes"
 	"encoding/json"
 	"fmt"
 	"math/big"
@@ -160,6 +161,10 @@ func (s *scn) twinCheck(h uint64, ev *pb.CommitEvent, txs []*pb.BxhTransaction, 
 	if len(failed) > 0 && !s.inSetup {
 		pick = failed[int(h)%len(failed)]
 	}
+	if (s.prop == "C09" || s.prop == "C12") && !s.inSetup && len(txs) > 0 {
+		// every block goes through the executor's rollback + re-execution on the twin
+		pick = int(h) % len(txs)
+	}
 	if s.prop == "C17" && !s.inSetup {
 		// direct calls are checked whether they failed or not
 		var calls []int
@@ -272,8 +277,20 @@ resync:
 		if pick >= 0 {
 			oracle, prop = "reexecute-after-rollback-differs", "C12"
 		}
-		s.vio(prop, oracle, "", "block %d: the twin replica computed block hash %s, the reference %s; differing state keys %q", h, tr.Hash[:14], ref.Hash[:14], trimKeys(d))
-		s.fatal = true
+		rdiff := ""
+		for j := range ref.Receipts {
+			if j < len(tr.Receipts) && !bytes.Equal(receiptBytes(ref.Receipts[j]), receiptBytes(tr.Receipts[j])) {
+				rdiff = fmt.Sprintf("; receipt %d (%s %s): reference %v %q, twin %v %q", j, metas[j].kind, metas[j].note, ref.Receipts[j].Status, ref.Receipts[j].Ret, tr.Receipts[j].Status, tr.Receipts[j].Ret)
+				break
+			}
+		}
+		s.vio(prop, oracle, "", "block %d: the twin replica computed block hash %s, the reference %s; differing state keys %q%s", h, tr.Hash[:14], ref.Hash[:14], trimKeys(d), rdiff)
+		if s.prop != "C09" {
+			s.fatal = true
+		}
+	}
+	if pick >= 0 {
+		s.checkStoredChain(t, h, "twin after rollback and re-execution")
 	}
 }
 
